@@ -77,7 +77,9 @@ namespace
     template <class T> long decode(const char *p, size_t n, T &out)
     {
         igris::archive::binary_buffer_reader reader(p, n);
+        keep(&out);
         igris::deserialize(reader, out);
+        keep(&out);
         return (const char *)reader.pointer() - p;
     }
 
